@@ -5,6 +5,7 @@ import FhVerif.Model.RespWrite
 import FhVerif.Spec.RespParse
 import FhVerif.Proofs.HeaderSet
 import FhVerif.Props.C30
+import FhVerif.Proofs.BodyOps
 
 namespace Fh.Props.C03
 open Fh Fh.Model Fh.Spec Fh.Proofs.HeaderSet Fh.Proofs.Cookie
@@ -97,6 +98,58 @@ theorem stream_never_exceeds_declared_partial (declared : Nat) (stream : Bytes) 
     (writeBodyFixedSize declared stream).1.length ≤ declared ∧
     ((writeBodyFixedSize declared stream).2 = true ↔ stream.length ≠ declared) := by
   simp [writeBodyFixedSize, h]
+
+/-! ### bodies built in several steps through the body API -/
+
+open Fh.Model.BodyOps in
+/-- C03 (body): whatever sequence of body operations a handler performs on a fresh Response, the bytes sent as the body
+    are the body the handler built, in the reading a handler author has (`absStep`): the last replacement, extended by
+    the appends after it. -/
+theorem body_sent_is_body_built (ops : List Op) : sent (BodyOps.run init ops) = (absRun absInit ops).cur :=
+  (Proofs.BodyOps.bodyRel_run ops init absInit (by simp [Proofs.BodyOps.BodyRel, init, absInit, sent])).1
+
+open Fh.Model.BodyOps in
+/-- a raw body or a stream never has an earlier buffered body underneath it (which a later append would resurrect) -/
+theorem raw_or_stream_has_empty_buffer (ops : List Op) :
+    ((BodyOps.run init ops).raw.isSome ∨ (BodyOps.run init ops).stream.isSome) → (BodyOps.run init ops).body = [] := by
+  have inv : ∀ (ops : List Op) (s : RB), ((s.raw.isSome ∨ s.stream.isSome) → s.body = []) →
+      (((BodyOps.run s ops).raw.isSome ∨ (BodyOps.run s ops).stream.isSome) → (BodyOps.run s ops).body = []) := by
+    intro ops
+    induction ops with
+    | nil => intro s h; simpa [BodyOps.run] using h
+    | cons op ops ih =>
+      intro s h
+      have : ((step s op).raw.isSome ∨ (step s op).stream.isSome) → (step s op).body = [] := by
+        cases op <;> simp [step, resetBody]
+      simpa [BodyOps.run] using ih _ this
+  exact inv ops init (by simp [init])
+
+open Fh.Model.BodyOps in
+/-- the last replacement wins: after `SetBody b` followed only by appends, exactly `b` and the appended pieces are sent,
+    whatever was done to the response before -/
+theorem last_set_then_appends (before : List Op) (b : Bytes) (pieces : List Bytes) :
+    sent (BodyOps.run init (before ++ Op.set b :: pieces.map Op.app)) = b ++ pieces.flatten := by
+  have happ : ∀ (pieces : List Bytes) (s : RB), s.raw = none → s.stream = none →
+      sent (BodyOps.run s (pieces.map Op.app)) = s.body ++ pieces.flatten := by
+    intro pieces
+    induction pieces with
+    | nil => intro s hr hs; simp [BodyOps.run, sent, hr, hs]
+    | cons p ps ih =>
+      intro s hr hs
+      have := ih (step s (.app p)) (by simp [step]) (by simp [step])
+      simpa [BodyOps.run, step, List.append_assoc] using this
+  have : BodyOps.run init (before ++ Op.set b :: pieces.map Op.app) =
+      BodyOps.run (step (BodyOps.run init before) (.set b)) (pieces.map Op.app) := by
+    simp [BodyOps.run, List.foldl_append]
+  rw [this, happ pieces _ (by simp [step]) (by simp [step])]
+  simp [step]
+
+/-! non-vacuity: a raw body over a buffered one, then an append -/
+example : Model.BodyOps.sent (Model.BodyOps.run Model.BodyOps.init
+    [.set (ofString "first draft. "), .raw (ofString "RAW"), .app (ofString "tail")]) = ofString "tail" := by decide +kernel
+example : Model.BodyOps.sent (Model.BodyOps.run Model.BodyOps.init
+    [.app (ofString "a"), .stream (ofString "S"), .rawNil, .app (ofString "b"), .app (ofString "c")]) = ofString "bc" := by
+  decide +kernel
 
 /-! non-vacuity -/
 example : parseResponse (ofString "GET") (ofString "HTTP/1.1 200 OK\r\nContent-Length: 2\r\n\r\nhiNEXT") =
